@@ -19,4 +19,19 @@ out = ["# Seeded changes: which check catches which", "",
 for (seed, pid), (rc, n, sig, run) in sorted(rows.items()):
     out.append("| %s | %s | %d | %s |" % (seed, pid, rc, sig or "-"))
 open("/verif/seeded/RESULTS.md", "w").write("\n".join(out) + "\n")
+# record the outcome next to each change
+for (seed, pid), (rc, n, sig, run) in rows.items():
+    d = "/verif/seeded/" + seed.replace("/", "_")
+    if seed.startswith("reverts/"):
+        d = "/verif/seeded/revert_" + seed.split("/")[1]
+        os.makedirs(d, exist_ok=True)
+        src = "/tmp/seeds/" + seed + "/patch.diff"
+        if os.path.exists(src) and not os.path.exists(d + "/patch.diff"):
+            open(d + "/patch.diff", "w").write(open(src).read())
+    mp = d + "/meta.json"
+    if os.path.isdir(d):
+        m = json.load(open(mp)) if os.path.exists(mp) else {"property": pid, "kind": "revert of a fix: commit " + seed.split("/")[-1],
+            "what_i_ran": "tools/seed_eval.sh on a scratch worktree with the reverse patch of the fix commit applied"}
+        m.setdefault("checks", {})[pid] = {"exit": rc, "violations_reported": n, "signatures": sig}
+        json.dump(m, open(mp, "w"), indent=1)
 print("\n".join(out[9:]))
